@@ -242,7 +242,7 @@ func c20(c *Ctx) {
 		{"handlePostTx", []string{"litefs.(*DB).WriteLTXFileAt", "litefs.(*DB).ApplyLTXNoLock"}, map[string]*Guard{
 			"id-parsed": nilOf("strconv.ParseInt(" + q("lockID") + ", 10, 64)#1"), "not-self": notSelf, "db-exists": GP("(litefs.(*Store).DB(@@) == nil)", false), "primary": GP("litefs.(*Store).IsPrimary(p0.store)", true), "lock-held": G(pat("(litefs.(*DB).PinHaltLock(@@) == nil)")+"|"+pat("(nil == litefs.(*DB).PinHaltLock(@@))"), false)}},
 		{"handlePostHandoff", []string{"litefs.(*Store).Handoff"}, map[string]*Guard{
-			"node-id-parsed": nilOf("litefs.ParseNodeID(" + q("nodeID") + ")#1")}},
+			"node-id-parsed": nilOf("litefs.ParseNodeID(" + q("nodeID") + ")#1"), "node-id-nonzero": GP("(0 == litefs.ParseNodeID("+q("nodeID")+")#0)", false)}},
 		{"handlePostPromote", []string{"http.(*Client).Handoff"}, map[string]*Guard{
 			"candidate": GP("litefs.(*Store).Candidate(p0.store)", true), "not-primary": GP("litefs.(*Store).PrimaryInfo(p0.store)#0", false), "primary-known": GP("(litefs.(*Store).PrimaryInfo(p0.store)#1 == nil)", false)}},
 		{"handlePostStream", []string{"litefs.(*Store).SubscribeChangeSet", "http.ReadPosMapFrom"}, map[string]*Guard{
